@@ -384,6 +384,12 @@ def guard_variants(g):
                 out.append('%s(%s,%s)%s' % (_SWAP[op], b, a, pol))
                 out.append('%s(%s,%s)%s' % (_NEG[_SWAP[op]], b, a, flip))
         break
+    # `r.is_ok()` taken is `r.is_err()` not taken (and is_some / is_none); both name the variant of r
+    for a_, b_ in (('Result::is_ok(', 'Result::is_err('), ('Option::is_some(', 'Option::is_none(')):
+        for x_, y_ in ((a_, b_), (b_, a_)):
+            for pol in (' not in [0]', ' in [0]'):
+                if g.startswith(x_) and g.endswith(')' + pol):
+                    out.append(y_ + g[len(x_):-len(pol)] + (' in [0]' if pol == ' not in [0]' else ' not in [0]'))
     m = re.match(r'^(discr\(.*\)) (not in|in) \[([01])\]$', g)
     if m:
         # for the two-variant enums the code branches on (Option, Result, ControlFlow) `== 0` is `!= 1`
